@@ -1061,7 +1061,7 @@ func mayAlias(a, b types.Type) bool {
 // spawnPre: the preconditions of a goroutine body that is verified under its own contract are proof
 // obligations where it is spawned (captured variables and arguments have their values of that moment).
 func (fr *Frame) spawnPre(st *State, x *ssa.Go, gargs []Val) {
-	if fr.parent != nil || x.Call.IsInvoke() {
+	if fr.hookRoot() == nil || x.Call.IsInvoke() { // spawns in expanded callees count like the function's own
 		return
 	}
 	var fn *ssa.Function
@@ -1108,7 +1108,7 @@ func (fr *Frame) spawnViaCall(st *State, fc *FuncContract, args []Val, pos token
 		fr.oblige(st, "spawn-pre", shortKey(fc.Key)+".known-function", False, &Clause{Kind: "spawn-pre", Text: "the function handed to " + shortKey(fc.Key) + " is a closure or function whose contract can be checked here"}, pos)
 		return
 	}
-	if fr.parent == nil {
+	if fr.hookRoot() != nil {
 		fr.spawnPreFn(st, fv.Fn, fv.Binds, nil, pos)
 	}
 	fr.top.note("spawn of " + fv.Fn.Name() + " through " + shortKey(fc.Key) + " in " + fr.fn.Name() + ": goroutine body not executed in the spawner; concurrent effects not modelled")
